@@ -13,12 +13,14 @@ the `reporter.teardown_task` events of `Runner.finish()`.  It does not model
 `TSys` adds exactly this to a base state: `wtd w` = `teardown_list` of worker process `w`, `log` = teardown executions
 (newest first) tagged with the entity that ran them (`none` = the main thread in `finish()`, `some w` = worker `w`).
 `tstep` runs one base step and the bookkeeping that `runner.py` does at that point.  Two switches (`Variant`) select code
-other than /repo HEAD: `pinnedThread = true` is the code before the commit "fix: thread runner executes each teardown
-only once" (a worker *thread* that receives `None` also runs the shared list); `procFixed = true` is the repair proposed
-in findings/pending/C11-process-teardown-failure.md.  At HEAD (`{}`) a failing teardown inside a worker *process* ends
-that worker's teardown loop: there `self.reporter` is the `MReporter`, whose generic forwarding method is written for
-task arguments (`task.name`), so `reporter.cleanup_error(SetupError(..))` raises `AttributeError`; the worker reports
-`{'exit': ...}` and the main process dies with `AttributeError` / `AssertionError` (exit code 3).
+older than /repo HEAD (`{}` = HEAD): `pinnedThread = true` is the code before the commit "fix: thread runner executes each
+teardown only once" (a worker *thread* that receives `None` also runs the shared list); `pinnedProcess = true` is the
+code before "fix: teardown failure on a sub-process is reported instead of crashing the run" (found by this check,
+findings/resolved/C11-process-teardown-failure.md): there a failing teardown inside a worker *process* ended that
+worker's teardown loop — `self.reporter` is the `MReporter`, whose generic forwarding method is written for task
+arguments (`task.name`), so `reporter.cleanup_error(SetupError(..))` raised `AttributeError`; the worker reported
+`{'exit': ...}` and the main process died with `AttributeError` / `AssertionError` (exit code 3).  At HEAD `MReporter`
+has its own `cleanup_error` that sends the failure to the main process, and the loop goes on.
 
 Core Lean only (linked into the driver). -/
 namespace DoitModel.Run
@@ -45,7 +47,7 @@ def TdEv.anon : TdEv → TdEv
 def teardownRun (tdFail : Name → Bool) (w : Option Nat) (l : List Name) : List TdEv :=
   l.reverse.flatMap fun t => if tdFail t then [TdEv.run t w, TdEv.err t w] else [TdEv.run t w]
 
-/-- `Runner.teardown()` inside a worker process at /repo HEAD, on the list already reversed: the first failing
+/-- `Runner.teardown()` inside a worker process before the repair (`pinnedProcess`), on the list already reversed: the first failing
     teardown raises out of the loop (`MReporter.cleanup_error` → `AttributeError`), nothing is reported for it and the
     teardowns of the tasks started earlier are not executed -/
 def teardownAbort (tdFail : Name → Bool) (w : Option Nat) : List Name → List TdEv
@@ -54,18 +56,18 @@ def teardownAbort (tdFail : Name → Bool) (w : Option Nat) : List Name → List
 
 structure Variant where
   pinnedThread : Bool := false   -- before "fix: thread runner executes each teardown only once"
-  procFixed : Bool := false      -- with the repair of the open finding `process-teardown-failure`
+  pinnedProcess : Bool := false  -- before "fix: teardown failure on a sub-process is reported instead of crashing the run"
 deriving DecidableEq, Repr
 
 /-- `self.teardown()` of worker process `w` -/
 def workerTeardown (v : Variant) (tdFail : Name → Bool) (w : Nat) (l : List Name) : List TdEv :=
-  if v.procFixed then teardownRun tdFail (some w) l else teardownAbort tdFail (some w) l.reverse
+  if v.pinnedProcess then teardownAbort tdFail (some w) l.reverse else teardownRun tdFail (some w) l
 
 structure TSys where
   base : Sys
   wtd : Nat → List Name          -- `teardown_list` of worker process `w` (process runner only)
   log : List TdEv                -- newest first
-  crashed : Bool                 -- a worker process died in its teardown loop: the main process raises (exit code 3)
+  crashed : Bool                 -- (pinned) a worker process died in its teardown loop: the main process raises (exit 3)
 
 def tinit (inp : RunInput) : TSys := { base := init inp, wtd := fun _ => [], log := [], crashed := false }
 
@@ -91,7 +93,7 @@ def tdAfter (inp : RunInput) (tdFail : Name → Bool) (v : Variant) (ts : TSys) 
         { ts with
           base := b'
           log := (workerTeardown v tdFail w (ts.wtd w)).reverse ++ ts.log
-          crashed := ts.crashed || (!v.procFixed && (ts.wtd w).any tdFail) }
+          crashed := ts.crashed || (v.pinnedProcess && (ts.wtd w).any tdFail) }
       else if v.pinnedThread then
         { ts with base := b', log := (teardownRun tdFail (some w) ts.base.tdown).reverse ++ ts.log }
       else { ts with base := b' }
